@@ -845,7 +845,7 @@ class SvcParams(Kind):
     def lib(self, v, origin=None):
         import dns.rdtypes.svcbbase as sb
         d = {}
-        for k, val in v:
+        for k, val in reversed(v):      # descending insertion order: the encoder has to sort
             if val is None:
                 p = None
             elif k == K_MANDATORY:
